@@ -33,9 +33,10 @@
 (* remaining step is `drain`.                                                  *)
 (*                                                                            *)
 (* What the property allows, printed with every behaviour (cfg):               *)
-(*   items[i]  kind, report ("must" | "never" | "any"), cont ("must" |         *)
-(*             "mustnot" | "any"), need = the sentinels errors.Is must find    *)
-(*             in the result once this failure has occurred and report = must  *)
+(*   faults    for every failing item: kind, report ("must" | "never" | "any"), *)
+(*             cont ("must" | "mustnot" | "any"), need = the sentinels         *)
+(*             errors.Is must find in the result once this failure has         *)
+(*             occurred and report = must                                      *)
 (*   never     sentinels errors.Is must never find in the result               *)
 (*   bound     after the first failure that must abort has returned (every     *)
 (*             other user function being held), at most `bound` = k further    *)
@@ -61,10 +62,6 @@ CONSTANTS Constructs,    \* subset of {"pp", "pfe", "worker", "map", "gen"}
 
 Min(a, b) == IF a < b THEN a ELSE b
 
-Scripts(nn) == {f \in [1..nn -> {"ok"} \cup FKinds] :
-                  /\ Cardinality({i \in 1..nn : f[i] # "ok"}) <= MaxFaults
-                  /\ \A i \in 1..nn : f[i] # "ok" => i <= MaxFaultPos}
-
 VARIABLES cfg,       \* [c, n, k, o, coll, F]
           started, nent, held,
           phase,     \* "run" | "abort" (a failure that must abort was released) | "open" (an unclassified one) | "over"
@@ -72,9 +69,18 @@ VARIABLES cfg,       \* [c, n, k, o, coll, F]
 vars == <<cfg, started, nent, held, phase, steps>>
 view == <<cfg, started, nent, held, phase>>
 
-Init == /\ cfg \in UNION {{[c |-> c, n |-> nn, k |-> kk, o |-> oo, coll |-> cl, F |-> f] :
-                              c \in Constructs, kk \in Ks, oo \in OptSet, cl \in Colls, f \in Scripts(nn)} : nn \in Ns}
+\* the configuration is chosen in two stages so that the set of initial states stays small (simulation):
+\* construct / size / options here, the failing items by SetFault steps before the run starts
+Init == /\ cfg \in {[c |-> c, n |-> nn, k |-> kk, o |-> oo, coll |-> cl, F |-> [i \in 1..nn |-> "ok"]] :
+                      c \in Constructs, nn \in Ns, kk \in Ks, oo \in OptSet, cl \in Colls}
         /\ started = FALSE /\ nent = 0 /\ held = {} /\ phase = "run" /\ steps = <<>>
+
+Faulty == {i \in 1..cfg.n : cfg.F[i] # "ok"}
+\* item i fails with `kind` (positions are chosen in increasing order: every script is built exactly once)
+SetFault(i, kind) == /\ ~started /\ Cardinality(Faulty) < MaxFaults /\ i <= MaxFaultPos
+                     /\ \A j \in Faulty : j < i
+                     /\ cfg' = [cfg EXCEPT !.F[i] = kind]
+                     /\ UNCHANGED <<started, nent, held, phase, steps>>
 
 Cont(i) == Contract(cfg.F[i], cfg.o).cont
 Rep(i)  == Contract(cfg.F[i], cfg.o).report
@@ -105,8 +111,9 @@ Drain == /\ phase # "over" /\ started
          /\ Rec("drain", 0, TRUE)
 
 Step == Start \/ Drain \/ \E i \in 1..cfg.n : Release(i)
-Next == /\ Len(steps) < Depth /\ Step
-        /\ (Len(steps) = Depth - 1) => phase' = "over"
+Next == \/ \E i \in 1..cfg.n, kind \in FKinds : SetFault(i, kind)
+        \/ /\ Len(steps) < Depth /\ Step
+           /\ (Len(steps) = Depth - 1) => phase' = "over"
 Spec == Init /\ [][Next]_vars
 
 Inv == /\ held \subseteq 1..nent /\ nent <= cfg.n /\ Cardinality(held) <= cfg.k
@@ -118,7 +125,7 @@ ItemRow(i) == [item |-> i, kind |-> cfg.F[i], report |-> Rep(i), cont |-> Cont(i
                need |-> {Name(s, i) : s \in Need(cfg.F[i])}]
 Beh(s) == [cfg   |-> [c |-> cfg.c, n |-> cfg.n, k |-> cfg.k, coe |-> cfg.o.coe, cop |-> cfg.o.cop, inc |-> cfg.o.inc,
                       exc |-> cfg.o.exc, coll |-> cfg.coll, kinds |-> cfg.F,
-                      items |-> [i \in 1..cfg.n |-> ItemRow(i)],
+                      faults |-> {ItemRow(i) : i \in Faulty},
                       never |-> NeverFound(cfg.o),
                       bound |-> cfg.k,
                       full  |-> \A i \in 1..cfg.n : Cont(i) = "must"],
